@@ -11,6 +11,16 @@
 //! the same description (every variant, `Some`, non-empty collections) and overwrites (at real paths of the traced tree
 //! and at perturbed paths).  `exec` reports `from_type`, `from_samples(covering)`, and the overwritten runs.
 //!
+//! `samples_rand` (most cases): a RANDOMISED covering list beside the canonical one — the canonical samples whole or
+//! `split` into two / three samples that only together show what the canonical one shows (`Some` on one side and `None`
+//! on the other, sequence elements / map entries dealt to the sides, position by position through tuples, structs and
+//! variant payloads), extra `random_value`s of the type (`None`, empty and 2 … 3 element collections, other and repeated
+//! variants, other scalars, plain-word strings), repetitions, shuffled.  The driver decides with `hasTy` / `covers`
+//! (lean/SaModel/Lemmas/C08Covers.lean) that the list is covering and requires `from_samples` on it to repeat `from_type`.
+//! Overwrites: 0 … 3 per case, also at enum variant paths and below variants (`collect_paths`), with leaf, Struct,
+//! List / LargeList, tuple-tagged and metadata-carrying overwrite fields (`gen_ow_dt`).  Stream `enumow`: structs with at
+//! least one enum field under options that mostly let `from_type` succeed, overwrites preferring variant paths.
+//!
 //! API coverage (notes/api_coverage.md), on the cases that carry `"api"`: the same tracing with the options reached another
 //! way (`perm`: `TracingOptions::new()` + setters in another order, some called twice, overwrite given a `String` path
 //! and a marrow `Field`; `fields`: the public fields assigned directly), through every other `SchemaLike` implementor
@@ -35,6 +45,12 @@ thread_local! {
 }
 
 pub struct DynRoot;
+
+/// run `f` with `ty` as the type description `DynRoot` stands for (used by the schema suite)
+pub fn with_type<R>(ty: &Value, f: impl FnOnce() -> R) -> R {
+    CURRENT_TY.with(|t| *t.borrow_mut() = ty.clone());
+    f()
+}
 
 impl<'de> Deserialize<'de> for DynRoot {
     fn deserialize<D: Deserializer<'de>>(d: D) -> Result<Self, D::Error> {
@@ -328,6 +344,16 @@ mod zoo {
     pub struct Maps { pub m: HashMap<String, i32>, pub bm: std::collections::BTreeMap<i64, Vec<bool>> }
     #[derive(Deserialize, Serialize, Debug)]
     pub struct TwoEnums { pub a: Plain, pub b: Data }
+    #[derive(Deserialize, Serialize, Debug)]
+    pub enum WithOptVec { A, S { v: Option<Vec<i32>>, w: String }, N(Vec<Option<bool>>), T(Option<Inner>, [u8; 2]) }
+    #[derive(Deserialize, Serialize, Debug)]
+    pub struct OptVecEnum { pub e: WithOptVec, pub n: u8 }
+    #[derive(Deserialize, Serialize, Debug)]
+    pub struct Holder { pub d: Data, pub tag: Option<String> }
+    #[derive(Deserialize, Serialize, Debug)]
+    pub struct VecNested { pub items: Vec<Holder>, pub t: Option<(u8, Plain)>, pub dd: Vec<Vec<Deep>> }
+    #[derive(Deserialize, Serialize, Debug)]
+    pub struct MapEnum { pub m: std::collections::BTreeMap<String, Deep>, pub k: HashMap<i8, Vec<Plain>>, pub o: Option<HashMap<String, Option<Data>>> }
 }
 
 fn s_(n: &str, f: Vec<(&str, Value)>) -> Value {
@@ -353,6 +379,7 @@ fn zoo_desc(name: &str) -> Value {
             var_("N2", "newtype", inner()),
         ])
     };
+    let deep = || en_("Deep", vec![var_("X", "newtype", data()), var_("Y", "newtype", plain()), var_("Z", "unit", Value::Null)]);
     match name {
         "Prims" => s_("Prims", vec![("a", l_("bool")), ("b", l_("i8")), ("c", l_("i16")), ("d", l_("i32")), ("e", l_("i64")), ("f", l_("u8")),
                                      ("g", l_("u16")), ("h", l_("u32")), ("i", l_("u64")), ("j", l_("f32")), ("k", l_("f64")), ("l", l_("char")), ("m", l_("string"))]),
@@ -371,6 +398,25 @@ fn zoo_desc(name: &str) -> Value {
                                      ("deep", en_("Deep", vec![var_("X", "newtype", data()), var_("Y", "newtype", plain()), var_("Z", "unit", Value::Null)]))]),
         "Maps" => s_("Maps", vec![("m", json!({"t": "map", "k": l_("string"), "v": l_("i32")})), ("bm", json!({"t": "map", "k": l_("i64"), "v": vec_(l_("bool"))}))]),
         "TwoEnums" => s_("TwoEnums", vec![("a", plain()), ("b", data())]),
+        "OptVecEnum" => s_("OptVecEnum", vec![
+            ("e", en_("WithOptVec", vec![
+                var_("A", "unit", Value::Null),
+                var_("S", "struct", json!([["v", opt_(vec_(l_("i32")))], ["w", l_("string")]])),
+                var_("N", "newtype", vec_(opt_(l_("bool")))),
+                var_("T", "tuple", json!([opt_(inner()), tup_(vec![l_("u8"), l_("u8")])])),
+            ])),
+            ("n", l_("u8")),
+        ]),
+        "VecNested" => s_("VecNested", vec![
+            ("items", vec_(s_("Holder", vec![("d", data()), ("tag", opt_(l_("string")))]))),
+            ("t", opt_(tup_(vec![l_("u8"), plain()]))),
+            ("dd", vec_(vec_(deep()))),
+        ]),
+        "MapEnum" => s_("MapEnum", vec![
+            ("m", json!({"t": "map", "k": l_("string"), "v": deep()})),
+            ("k", json!({"t": "map", "k": l_("i8"), "v": vec_(plain())})),
+            ("o", opt_(json!({"t": "map", "k": l_("string"), "v": opt_(data())}))),
+        ]),
         "ItemPlain" => s_("Item", vec![("item", plain())]),
         "ItemVecOpt" => s_("Item", vec![("item", vec_(opt_(l_("i64"))))]),
         "Tup" => json!({"t": "tuple_struct", "n": "Tup", "a": [l_("i32"), l_("string")]}),
@@ -379,7 +425,8 @@ fn zoo_desc(name: &str) -> Value {
     }
 }
 
-const ZOO: [&str; 11] = ["Prims", "WithBytes", "Nested", "Tuples", "Enums", "Maps", "TwoEnums", "ItemPlain", "ItemVecOpt", "Tup", "I32"];
+const ZOO: [&str; 14] = ["Prims", "WithBytes", "Nested", "Tuples", "Enums", "Maps", "TwoEnums", "ItemPlain", "ItemVecOpt", "Tup", "I32",
+                         "OptVecEnum", "VecNested", "MapEnum"];
 
 fn zoo_from_type(name: &str, o: TracingOptions) -> Result<Vec<Field>, serde_arrow::Error> {
     use serde_arrow::utils::Item;
@@ -391,6 +438,9 @@ fn zoo_from_type(name: &str, o: TracingOptions) -> Result<Vec<Field>, serde_arro
         "Enums" => Vec::<Field>::from_type::<zoo::Enums>(o),
         "Maps" => Vec::<Field>::from_type::<zoo::Maps>(o),
         "TwoEnums" => Vec::<Field>::from_type::<zoo::TwoEnums>(o),
+        "OptVecEnum" => Vec::<Field>::from_type::<zoo::OptVecEnum>(o),
+        "VecNested" => Vec::<Field>::from_type::<zoo::VecNested>(o),
+        "MapEnum" => Vec::<Field>::from_type::<zoo::MapEnum>(o),
         "ItemPlain" => Vec::<Field>::from_type::<Item<zoo::Plain>>(o),
         "ItemVecOpt" => Vec::<Field>::from_type::<Item<Vec<Option<i64>>>>(o),
         "Tup" => Vec::<Field>::from_type::<zoo::Tup>(o),
@@ -426,20 +476,23 @@ fn gen_ty(rng: &mut Rng, depth: usize) -> Value {
             1 => json!({"t": "newtype_struct", "n": "NS", "a": gen_ty(rng, depth - 1)}),
             _ => json!({"t": "unit_struct", "n": "US"}),
         },
-        _ => {
-            let n = 1 + rng.usize(4);
-            let all_unit = rng.chance(1, 4);
-            en_("E", (0..n).map(|i| {
-                let name = format!("V{i}");
-                match if all_unit { 0 } else { rng.below(4) } {
-                    0 => var_(&name, "unit", Value::Null),
-                    1 => var_(&name, "newtype", gen_ty(rng, depth - 1)),
-                    2 => var_(&name, "tuple", Value::Array((0..rng.usize(3)).map(|_| gen_ty(rng, depth - 1)).collect())),
-                    _ => var_(&name, "struct", Value::Array((0..rng.usize(3)).map(|j| json!([FNAMES[j], gen_ty(rng, depth - 1)])).collect())),
-                }
-            }).collect())
-        }
+        _ => gen_enum(rng, depth),
     }
+}
+
+/// an enum of 1 … 4 variants of the four kinds (a quarter: unit variants only); `depth ≥ 1`
+fn gen_enum(rng: &mut Rng, depth: usize) -> Value {
+    let n = 1 + rng.usize(4);
+    let all_unit = rng.chance(1, 4);
+    en_("E", (0..n).map(|i| {
+        let name = format!("V{i}");
+        match if all_unit { 0 } else { rng.below(4) } {
+            0 => var_(&name, "unit", Value::Null),
+            1 => var_(&name, "newtype", gen_ty(rng, depth - 1)),
+            2 => var_(&name, "tuple", Value::Array((0..rng.usize(3)).map(|_| gen_ty(rng, depth - 1)).collect())),
+            _ => var_(&name, "struct", Value::Array((0..rng.usize(3)).map(|j| json!([FNAMES[j], gen_ty(rng, depth - 1)])).collect())),
+        }
+    }).collect())
 }
 
 fn gen_struct(rng: &mut Rng, depth: usize) -> Value {
@@ -510,33 +563,311 @@ fn sample_at(ty: &Value, k: usize) -> Value {
     }
 }
 
-fn collect_paths(ty: &Value, prefix: &str, out: &mut Vec<(String, String)>) {
-    // (overwrite path without "$.", name of the node) for every node below the root
+/// (overwrite path without "$.", traced name of the node, is the node a variant of an enum or below one) for every node
+/// below the root
+fn collect_paths(ty: &Value, prefix: &str, in_variant: bool, out: &mut Vec<(String, String, bool)>) {
     let arr = |v: &Value| v.as_array().cloned().unwrap_or_default();
-    let mut child = |name: &str, t: &Value, out: &mut Vec<(String, String)>| {
+    let mut child = |name: &str, t: &Value, var: bool, out: &mut Vec<(String, String, bool)>| {
         let p = if prefix.is_empty() { name.to_string() } else { format!("{prefix}.{name}") };
-        out.push((p.clone(), name.to_string()));
-        collect_paths(t, &p, out);
+        out.push((p.clone(), name.to_string(), var));
+        collect_paths(t, &p, var, out);
     };
     match ty["t"].as_str().unwrap() {
-        "option" | "newtype_struct" => collect_paths(&ty["a"], prefix, out),
-        "vec" => child("element", &ty["a"], out),
+        "option" | "newtype_struct" => collect_paths(&ty["a"], prefix, in_variant, out),
+        "vec" => child("element", &ty["a"], in_variant, out),
         "tuple" | "tuple_struct" => {
             for (i, t) in arr(&ty["a"]).iter().enumerate() {
-                child(&i.to_string(), t, out);
+                child(&i.to_string(), t, in_variant, out);
             }
         }
         "map" => {
-            child("key", &ty["k"], out);
-            child("value", &ty["v"], out);
+            child("key", &ty["k"], in_variant, out);
+            child("value", &ty["v"], in_variant, out);
         }
         "struct" => {
             for f in arr(&ty["f"]) {
-                child(f[0].as_str().unwrap(), &f[1], out);
+                child(f[0].as_str().unwrap(), &f[1], in_variant, out);
+            }
+        }
+        // the variants of an enum (compare `Spec.tyPathsVariants`): every variant is a node `<path>.<Variant>` named after the
+        // variant; the payload of a newtype variant lives AT the variant path (what is below it is below the payload type),
+        // tuple variant elements at `<path>.<Variant>.<i>`, struct variant fields at `<path>.<Variant>.<field>`
+        "enum" => {
+            for v in arr(&ty["v"]) {
+                let vn = v["n"].as_str().unwrap();
+                match v["k"].as_str().unwrap() {
+                    "unit" => child(vn, &l_("unit"), true, out),
+                    "newtype" => child(vn, &v["a"], true, out),
+                    "tuple" => child(vn, &tup_(arr(&v["a"])), true, out),
+                    _ => child(vn, &json!({"t": "struct", "n": vn, "f": v["a"]}), true, out),
+                }
             }
         }
         _ => {}
     }
+}
+
+// ------------------------------------------------------------------------------------------------ randomised covering sets
+
+/// plain words: nothing here looks like a date / time (`guess_dates` may be on)
+const WORDS: [&str; 10] = ["", "s", "foo", "bar", "hello world", "x y", "Zürich", "none", "null", "a-b"];
+const KEYS: [&str; 6] = ["ka", "kb", "kc", "kd", "ke", "kf"];
+
+fn has_empty_enum(ty: &Value) -> bool {
+    let arr = |v: &Value| v.as_array().cloned().unwrap_or_default();
+    match ty["t"].as_str().unwrap() {
+        "option" | "vec" | "newtype_struct" => has_empty_enum(&ty["a"]),
+        "tuple" | "tuple_struct" => arr(&ty["a"]).iter().any(has_empty_enum),
+        "map" => has_empty_enum(&ty["k"]) || has_empty_enum(&ty["v"]),
+        "struct" => arr(&ty["f"]).iter().any(|f| has_empty_enum(&f[1])),
+        "enum" => {
+            let vs = arr(&ty["v"]);
+            vs.is_empty() || vs.iter().any(|v| match v["k"].as_str().unwrap() {
+                "unit" => false,
+                "newtype" => has_empty_enum(&v["a"]),
+                "tuple" => arr(&v["a"]).iter().any(has_empty_enum),
+                _ => arr(&v["a"]).iter().any(|f| has_empty_enum(&f[1])),
+            })
+        }
+        _ => false,
+    }
+}
+
+/// a random serde value of the type `ty` (what a derived `Serialize` of a value of the Rust type emits), in the wire form
+/// of sval.rs: any `None` / `Some`, sequences and maps of 0 … 3 elements, any variant, any scalar
+fn random_value(ty: &Value, r: &mut Rng, depth: usize) -> Value {
+    let arr = |v: &Value| v.as_array().cloned().unwrap_or_default();
+    let name = ty["n"].as_str().unwrap_or("");
+    let t = ty["t"].as_str().unwrap();
+    let len = |r: &mut Rng| if depth >= 3 { r.usize(2) } else { r.usize(4) };
+    match t {
+        "unit" => sval::unit(),
+        "bool" => sval::boolean(r.bool()),
+        "i8" => sval::int(t, r.range(-128, 127) as i128),
+        "i16" => sval::int(t, *r.pick(&[0i128, -1, 2, 300, -32768, 32767])),
+        "i32" => sval::int(t, *r.pick(&[0i128, -1, 2, 70000, i32::MIN as i128, i32::MAX as i128])),
+        "i64" => sval::int(t, *r.pick(&[0i128, -1, 2, 5_000_000_000, i64::MIN as i128, i64::MAX as i128])),
+        "u8" => sval::int(t, r.range(0, 255) as i128),
+        "u16" => sval::int(t, *r.pick(&[0i128, 2, 300, 65535])),
+        "u32" => sval::int(t, *r.pick(&[0i128, 2, 70000, u32::MAX as i128])),
+        "u64" => sval::int(t, *r.pick(&[0i128, 2, 5_000_000_000, i64::MAX as i128 + 1, u64::MAX as i128])),
+        "f32" => sval::f32v(*r.pick(&[0.0f32, -0.0, 1.0, -1.5, 3.25e10, f32::MAX, f32::INFINITY, f32::NAN])),
+        "f64" => sval::f64v(*r.pick(&[0.0f64, -0.0, 1.0, -1.5, 3.25e100, f64::MIN, f64::NEG_INFINITY, f64::NAN])),
+        "char" => sval::chr(*r.pick(&['a', 'b', 'Z', '0', ' ', 'ü', '\u{1F600}'])),
+        "string" => sval::string(*r.pick(&WORDS)),
+        "bytes" => sval::bytes(&(0..r.usize(4)).map(|_| r.below(256) as u8).collect::<Vec<u8>>()),
+        "option" => if r.chance(1, 3) { sval::none() } else { sval::some(random_value(&ty["a"], r, depth)) },
+        "vec" => sval::seq((0..len(r)).map(|_| random_value(&ty["a"], r, depth + 1)).collect()),
+        "tuple" => sval::tuple(arr(&ty["a"]).iter().map(|t| random_value(t, r, depth + 1)).collect()),
+        "tuple_struct" => sval::tuple_struct(name, arr(&ty["a"]).iter().map(|t| random_value(t, r, depth + 1)).collect()),
+        "map" => {
+            // string keys stay strings, distinct within one map (what a HashMap / BTreeMap gives)
+            let n = len(r);
+            let off = r.usize(KEYS.len());
+            sval::map((0..n).map(|j| {
+                let k = if ty["k"]["t"] == "string" { sval::string(KEYS[(off + j) % KEYS.len()]) } else { random_value(&ty["k"], r, depth + 1) };
+                (k, random_value(&ty["v"], r, depth + 1))
+            }).collect())
+        }
+        "struct" => sval::record(name, arr(&ty["f"]).iter().map(|f| (f[0].as_str().unwrap().to_string(), 0, random_value(&f[1], r, depth + 1))).collect()),
+        "newtype_struct" => sval::newtype_struct(name, random_value(&ty["a"], r, depth)),
+        "unit_struct" => sval::unit_struct(name),
+        "enum" => {
+            let vs = arr(&ty["v"]);
+            if vs.is_empty() {
+                return sval::unit(); // no value exists; callers skip types with an empty enum
+            }
+            let i = r.usize(vs.len());
+            let v = &vs[i];
+            let vn = v["n"].as_str().unwrap();
+            match v["k"].as_str().unwrap() {
+                "unit" => sval::unit_variant(name, i as u32, vn),
+                "newtype" => sval::newtype_variant(name, i as u32, vn, random_value(&v["a"], r, depth + 1)),
+                "tuple" => sval::tuple_variant(name, i as u32, vn, arr(&v["a"]).iter().map(|t| random_value(t, r, depth + 1)).collect()),
+                _ => sval::struct_variant(name, i as u32, vn, arr(&v["a"]).iter().map(|f| (f[0].as_str().unwrap().to_string(), 0, random_value(&f[1], r, depth + 1))).collect()),
+            }
+        }
+        other => panic!("unknown type tag {other}"),
+    }
+}
+
+/// two values of the same type that TOGETHER show what `v` shows, each possibly less: a `Some(x)` becomes `Some(x)` /
+/// `None` (either way round) or `Some(x1)` / `Some(x2)`; the elements of a sequence / the entries of a map are dealt to
+/// the two sides (or split themselves), so one side may be empty and a side may hold two parts of one element; tuples,
+/// structs and variant payloads are split position by position
+fn split(v: &Value, r: &mut Rng) -> (Value, Value) {
+    let mut a = v.clone();
+    let mut b = v.clone();
+    let pair = |xs: &[Value], r: &mut Rng| -> (Vec<Value>, Vec<Value>) { xs.iter().map(|x| split(x, r)).unzip() };
+    match v["k"].as_str().unwrap() {
+        "some" => match r.below(4) {
+            0 => b = sval::none(),
+            1 => a = sval::none(),
+            _ => {
+                let (x, y) = split(&v["v"], r);
+                a["v"] = x;
+                b["v"] = y;
+            }
+        },
+        "newtype_struct" | "newtype_variant" => {
+            let (x, y) = split(&v["v"], r);
+            a["v"] = x;
+            b["v"] = y;
+        }
+        "seq" => {
+            let (mut xa, mut xb) = (Vec::new(), Vec::new());
+            for it in v["v"].as_array().unwrap() {
+                match r.below(4) {
+                    0 => xa.push(it.clone()),
+                    1 => xb.push(it.clone()),
+                    2 => {
+                        let (x, y) = split(it, r);
+                        xa.push(x);
+                        xb.push(y);
+                    }
+                    _ => {
+                        let (x, y) = split(it, r);
+                        xa.push(x);
+                        xa.push(y);
+                    }
+                }
+            }
+            a["v"] = Value::Array(xa);
+            b["v"] = Value::Array(xb);
+        }
+        "map" => {
+            let (mut xa, mut xb) = (Vec::new(), Vec::new());
+            for e in v["e"].as_array().unwrap() {
+                match r.below(3) {
+                    0 => xa.push(e.clone()),
+                    1 => xb.push(e.clone()),
+                    _ => {
+                        let (k1, k2) = split(&e[0], r);
+                        let (v1, v2) = split(&e[1], r);
+                        xa.push(json!([k1, v1]));
+                        xb.push(json!([k2, v2]));
+                    }
+                }
+            }
+            a["e"] = Value::Array(xa);
+            b["e"] = Value::Array(xb);
+        }
+        "tuple" | "tuple_struct" | "tuple_variant" => {
+            let (xa, xb) = pair(v["v"].as_array().unwrap(), r);
+            a["v"] = Value::Array(xa);
+            b["v"] = Value::Array(xb);
+        }
+        "struct" | "struct_variant" => {
+            let fs = v["f"].as_array().unwrap();
+            let (xa, xb) = pair(&fs.iter().map(|f| f[2].clone()).collect::<Vec<_>>(), r);
+            a["f"] = Value::Array(fs.iter().zip(xa).map(|(f, x)| json!([f[0], f[1], x])).collect());
+            b["f"] = Value::Array(fs.iter().zip(xb).map(|(f, x)| json!([f[0], f[1], x])).collect());
+        }
+        _ => {}
+    }
+    (a, b)
+}
+
+/// a randomised covering sample list: the canonical covering samples — whole, or split into two or three samples that
+/// only together show what the canonical one shows —, extra random values of the type (`None`s, empty and longer
+/// collections, other / repeated variants, other scalars), repetitions; shuffled
+fn randomised_covering(ty: &Value, canonical: &[Value], r: &mut Rng) -> Vec<Value> {
+    let mut out: Vec<Value> = Vec::new();
+    let small = canonical.len() <= 32;
+    for s in canonical {
+        match if small { r.below(4) } else { 0 } {
+            0 => out.push(s.clone()),
+            1 | 2 => {
+                let (a, b) = split(s, r);
+                out.push(a);
+                out.push(b);
+            }
+            _ => {
+                let (a, b) = split(s, r);
+                let (a1, a2) = split(&a, r);
+                out.extend([a1, a2, b]);
+            }
+        }
+    }
+    for _ in 0..r.usize(5) {
+        out.push(random_value(ty, r, 0));
+    }
+    for _ in 0..r.usize(3) {
+        let x = r.pick(&out).clone();
+        out.push(x);
+    }
+    r.shuffle(&mut out);
+    out
+}
+
+// ------------------------------------------------------------------------------------------------ overwrites
+
+const OW_LEAF_DTS: [&str; 10] = ["Int64", "LargeUtf8", "Float32", "Boolean", "Date32", "Utf8", "UInt8", "Float64", "Int32", "LargeBinary"];
+
+fn wire_field(name: &str, dt: Value, nullable: bool) -> Value {
+    json!({"name": name, "nullable": nullable, "meta": [], "dt": dt})
+}
+
+/// data type (and metadata) of an overwrite field: a leaf name of the fixed vocabulary, or — in the wire form of
+/// schema_dump.rs — a Struct with children, a List / LargeList of a primitive, a Struct holding a list, a tuple-like
+/// Struct tagged `TupleAsStruct`, a leaf with a metadata entry
+fn gen_ow_dt(r: &mut Rng) -> (Value, Option<Value>) {
+    let leaf = |r: &mut Rng| json!({"t": *r.pick(&OW_LEAF_DTS)});
+    let list = |r: &mut Rng| {
+        let child = wire_field(*r.pick(&["element", "item"]), json!({"t": *r.pick(&OW_LEAF_DTS)}), r.bool());
+        json!({"t": *r.pick(&["List", "LargeList"]), "child": child})
+    };
+    match r.below(10) {
+        0..=4 => (json!(*r.pick(&OW_LEAF_DTS)), None),
+        5 => {
+            let n = r.usize(4);
+            (json!({"t": "Struct", "fields": (0..n).map(|i| wire_field(["x", "y", "z"][i], leaf(r), r.bool())).collect::<Vec<_>>()}), None)
+        }
+        6 => (list(r), None),
+        7 => (json!({"t": "Struct", "fields": [wire_field("x", list(r), r.bool()), wire_field("y", leaf(r), r.bool())]}), None),
+        8 => (json!({"t": "Struct", "fields": [wire_field("0", leaf(r), false), wire_field("1", leaf(r), r.bool())]}),
+              Some(json!([["SERDE_ARROW:strategy", "TupleAsStruct"]]))),
+        _ => (json!(*r.pick(&OW_LEAF_DTS)), Some(json!([["note", "n"]]))),
+    }
+}
+
+/// 0 … 3 overwrites (`many`: 1 … 3): at a real path of the traced tree (variant paths and paths below variants included,
+/// preferred half of the time when there are any) with the right name, a wrong name, at a path below it that does not
+/// exist, or at a perturbed path; in half of the cases every overwrite is of the first kind (so that several overwrites
+/// succeed together).  Two overwrites may name the same path (rarely): the later one replaces the earlier one.
+fn gen_overwrites(paths: &[(String, String, bool)], r: &mut Rng, many: bool) -> Vec<Value> {
+    let mut ows: Vec<Value> = Vec::new();
+    if paths.is_empty() {
+        return ows;
+    }
+    let var_paths: Vec<(String, String, bool)> = paths.iter().filter(|p| p.2).cloned().collect();
+    let n = if many { 1 + r.usize(3) } else { match r.below(8) { 0..=2 => 0, 3..=5 => 1, 6 => 2, _ => 3 } };
+    let all_right = r.bool();
+    let mut used: Vec<String> = Vec::new();
+    for _ in 0..n {
+        let draw = |r: &mut Rng| if !var_paths.is_empty() && r.bool() { r.pick(&var_paths).clone() } else { r.pick(paths).clone() };
+        let (mut p, mut nm, _) = draw(r);
+        // mostly distinct paths; one time in eight a repeated path is let through
+        for _ in 0..4 {
+            if !used.contains(&p) || r.chance(1, 8) {
+                break;
+            }
+            (p, nm, _) = draw(r);
+        }
+        used.push(p.clone());
+        let (dt, meta) = gen_ow_dt(r);
+        let mut f = match if all_right { 5 } else { r.below(6) } {
+            0 => json!([p, {"name": format!("{nm}_x"), "dt": dt, "nullable": false}]),
+            1 => json!([format!("{p}.nope"), {"name": "nope", "dt": dt, "nullable": true}]),
+            2 => json!([format!("x{p}"), {"name": nm, "dt": dt, "nullable": true}]),
+            _ => json!([p, {"name": nm, "dt": dt, "nullable": r.bool()}]),
+        };
+        if let Some(m) = meta {
+            f[1]["meta"] = m;
+        }
+        ows.push(f);
+    }
+    ows
 }
 
 fn opts_from_mask(mask: u64) -> Value {
@@ -545,6 +876,18 @@ fn opts_from_mask(mask: u64) -> Value {
         o[*k] = json!(mask >> i & 1 == 1);
     }
     o
+}
+
+/// `samples_rand`: a randomised covering list beside the canonical one (in `num` of 6 cases that have canonical samples),
+/// drawn from the case's own sub-seed
+fn add_samples_rand(case: &mut Value, sub: u64, num: u64) {
+    let mut y = Rng::new(sub ^ 0xC08E_5A3D);
+    let canonical = case["samples"].as_array().cloned().unwrap_or_default();
+    // (a canonical list cut short is not covering)
+    if canonical.is_empty() || canonical.len() != width(&case["ty"]) || has_empty_enum(&case["ty"]) || !y.chance(num, 6) {
+        return;
+    }
+    case["samples_rand"] = Value::Array(randomised_covering(&case["ty"], &canonical, &mut y));
 }
 
 pub fn gen(ctx: &Ctx) -> Vec<Value> {
@@ -564,7 +907,9 @@ pub fn gen(ctx: &Ctx) -> Vec<Value> {
             let ty = zoo_desc(name);
             let n = width(&ty).min(64);
             let samples: Vec<Value> = (0..n).map(|k| sample_at(&ty, k)).collect();
-            push(&mut out, json!({"kind": "zoo", "zoo": name, "ty": ty, "opts": opts_from_mask(mask), "samples": samples, "overwrites": []}), sub);
+            let mut case = json!({"kind": "zoo", "zoo": name, "ty": ty, "opts": opts_from_mask(mask), "samples": samples, "overwrites": []});
+            add_samples_rand(&mut case, sub, 6);
+            push(&mut out, case, sub);
         }
     }
     // (1) random type descriptions; the options walk all 2^9 flag combinations
@@ -583,21 +928,12 @@ pub fn gen(ctx: &Ctx) -> Vec<Value> {
         o["from_type_budget"] = json!(match r.below(8) { 0 => 0, 1 => 1, 2 => 2, 3 => r.usize(8), _ => 100 });
         let w = width(&ty);
         let samples: Vec<Value> = if w <= 96 { (0..w).map(|k| sample_at(&ty, k)).collect() } else { vec![] };
-        // overwrites: at a real path with the right name / a wrong name, and at a perturbed path
+        // overwrites: at real paths with the right name / a wrong name, below a leaf, and at perturbed paths
         let mut paths = Vec::new();
-        collect_paths(&ty, "", &mut paths);
-        let mut ows = Vec::new();
-        if !paths.is_empty() && r.chance(1, 2) {
-            let (p, nm) = r.pick(&paths).clone();
-            let dt = *r.pick(&["Int64", "LargeUtf8", "Float32", "Boolean", "Date32"]);
-            match r.below(5) {
-                0 => ows.push(json!([p, {"name": format!("{nm}_x"), "dt": dt, "nullable": false}])),
-                1 => ows.push(json!([format!("{p}.nope"), {"name": "nope", "dt": dt, "nullable": true}])),
-                2 => ows.push(json!([format!("x{p}"), {"name": nm, "dt": dt, "nullable": true}])),
-                _ => ows.push(json!([p, {"name": nm, "dt": dt, "nullable": r.bool()}])),
-            }
-        }
+        collect_paths(&ty, "", false, &mut paths);
+        let ows = gen_overwrites(&paths, &mut r, false);
         let mut case = json!({"kind": "random", "ty": ty, "opts": o, "samples": samples, "overwrites": ows});
+        add_samples_rand(&mut case, sub, 5);
         let mut x = Rng::new(sub ^ 0xA91_C07E);
         if x.chance(1, 4) {
             case["api"] = json!(*x.pick(&["perm", "perm", "fields", "schemalike"]));
@@ -618,10 +954,57 @@ pub fn gen(ctx: &Ctx) -> Vec<Value> {
                     let w = width(&ty);
                     let samples: Vec<Value> = (0..w).map(|k| sample_at(&ty, k)).collect();
                     let sub = rng.fork().0;
-                    push(&mut out, json!({"kind": "mapkey", "ty": ty, "opts": opts_from_mask(mask), "samples": samples, "overwrites": []}), sub);
+                    let mut case = json!({"kind": "mapkey", "ty": ty, "opts": opts_from_mask(mask), "samples": samples, "overwrites": []});
+                    add_samples_rand(&mut case, sub, 6);
+                    push(&mut out, case, sub);
                 }
             }
         }
+    }
+    // (1c) enums everywhere: structs with at least one enum field (bare, or under Option / Vec / a tuple / a map value / a
+    //      newtype struct), options that mostly let `from_type` succeed, 1 … 3 overwrites that prefer variant paths and
+    //      paths below variants, and always a randomised covering list
+    let n = if ctx.thorough() { 12000 } else { 1200 };
+    for c in 0..n {
+        let mut r = rng.fork();
+        let sub = r.0;
+        let depth = 1 + r.usize(if ctx.thorough() { 4 } else { 3 });
+        let nf = 1 + r.usize(3);
+        let at = r.usize(nf);
+        let fields: Vec<(&str, Value)> = (0..nf).map(|i| {
+            if i != at {
+                return (FNAMES[i], gen_ty(&mut r, depth - 1));
+            }
+            let e = gen_enum(&mut r, depth);
+            (FNAMES[i], match r.below(8) {
+                0 => opt_(e),
+                1 => vec_(e),
+                2 => tup_(vec![l_("i32"), e]),
+                3 => json!({"t": "map", "k": l_("string"), "v": e}),
+                4 => json!({"t": "newtype_struct", "n": "NS", "a": e}),
+                5 => vec_(opt_(e)),
+                _ => e,
+            })
+        }).collect();
+        let ty = s_("S", fields);
+        let mut o = opts_from_mask((c as u64).wrapping_mul(37) % 512);
+        if r.chance(3, 4) {
+            o["allow_null_fields"] = json!(true);
+        }
+        if r.chance(3, 4) {
+            o["map_as_struct"] = json!(false);
+        }
+        if r.chance(1, 8) {
+            o["from_type_budget"] = json!(r.usize(12));
+        }
+        let w = width(&ty);
+        let samples: Vec<Value> = if w <= 96 { (0..w).map(|k| sample_at(&ty, k)).collect() } else { vec![] };
+        let mut paths = Vec::new();
+        collect_paths(&ty, "", false, &mut paths);
+        let ows = gen_overwrites(&paths, &mut r, true);
+        let mut case = json!({"kind": "enumow", "ty": ty, "opts": o, "samples": samples, "overwrites": ows});
+        add_samples_rand(&mut case, sub, 6);
+        push(&mut out, case, sub);
     }
     // (2) deep / recursive-like types: the depth limit and the budget
     for d in [5usize, 18, 19, 20, 21, 30] {
@@ -642,6 +1025,17 @@ pub fn gen(ctx: &Ctx) -> Vec<Value> {
     {
         let sub = rng.fork().0;
         push(&mut out, json!({"kind": "budget", "ty": s_("S", vec![("e", en_("E", vec![]))]), "opts": default_opts(), "samples": [], "overwrites": []}), sub);
+    }
+    // the `i8` type ids: with a budget that covers the passes, 128 variants trace and 129 / 130 are the conversion error
+    // (error class "more than 128 variants") for from_type and from_samples alike
+    for nv in [128usize, 129, 130] {
+        let vs: Vec<Value> = (0..nv).map(|i| var_(&format!("V{i}"), "newtype", l_("i32"))).collect();
+        let sub = rng.fork().0;
+        let ty = s_("S", vec![("e", en_("E", vs))]);
+        let samples: Vec<Value> = (0..nv).map(|k| sample_at(&ty, k)).collect();
+        let mut o = default_opts();
+        o["from_type_budget"] = json!(200);
+        push(&mut out, json!({"kind": "typeids", "ty": ty, "opts": o, "samples": samples, "overwrites": []}), sub);
     }
     // API coverage: the documented defaults, untouched (`TracingOptions::default()` / `::new()`), on every zoo type and
     // on types that show every default (maps, sequences, strings, enums without data, nullable-only fields)
@@ -666,7 +1060,7 @@ fn run_from_type(ty: &Value, opts: &Value) -> Value {
     })
 }
 
-struct SampleRows<'a>(&'a [Value]);
+pub(crate) struct SampleRows<'a>(pub(crate) &'a [Value]);
 impl Serialize for SampleRows<'_> {
     fn serialize<S: serde::Serializer>(&self, s: S) -> Result<S::Ok, S::Error> {
         let vals: Vec<SVal> = self.0.iter().map(SVal).collect();
@@ -775,6 +1169,10 @@ pub fn exec(input: &Value) -> Value {
     if let Some(api) = input.get("api").and_then(|a| a.as_str()) {
         run_api(api, input, &samples, &mut case);
     }
+    let samples_rand = input["samples_rand"].as_array().cloned().unwrap_or_default();
+    if !samples_rand.is_empty() {
+        case["impl_samples_rand"] = run_from_samples(&samples_rand, opts);
+    }
     let ows = input["overwrites"].as_array().cloned().unwrap_or_default();
     if !ows.is_empty() {
         let mut o2 = opts.clone();
@@ -782,6 +1180,9 @@ pub fn exec(input: &Value) -> Value {
         case["impl_ow"] = run_from_type(ty, &o2);
         if !samples.is_empty() {
             case["impl_samples_ow"] = run_from_samples(&samples, &o2);
+        }
+        if !samples_rand.is_empty() {
+            case["impl_samples_rand_ow"] = run_from_samples(&samples_rand, &o2);
         }
     }
     case
